@@ -5,6 +5,7 @@ Runs under /venv/bin/python (decaylanguage is installed there in editable mode f
 """
 from __future__ import annotations
 
+import hashlib
 import json
 import os
 import random
@@ -347,7 +348,9 @@ class Result:
     def case(self, nontrivial_key=None, sample=None):
         self.evaluations += 1
         if nontrivial_key is not None:
-            self.nontrivial.add(nontrivial_key)
+            # only the number of distinct keys is reported: keep a short digest (thorough runs see millions of cases)
+            self.nontrivial.add(hashlib.blake2b(nontrivial_key.encode("utf-8", "replace"), digest_size=12).digest()
+                                if isinstance(nontrivial_key, str) and len(nontrivial_key) > 24 else nontrivial_key)
         if sample is not None and len(self.samples) < 5:
             self.samples.append(sample)
 
